@@ -43,7 +43,9 @@ CHECKS = {
         text="Scripts of 1..4 consecutive requests with per-request lists of injected datagrams are enumerated (exhaustively for 1 request x <= 2/3 "
              "datagrams and 2-3 requests over reduced sets, randomly for 3..4 requests) for v1, v2c, v3 noAuth and auth+priv, sync and async, "
              "get/get_many/getnext/getbulk; every datagram carries a unique INTEGER so the delivered value names the datagram that was accepted; "
-             "the expected outcome (deliver this serial / SnmpDecodeError / TimeoutError) is computed from the ids actually seen on the wire. "
+             "the expected outcome (deliver this serial / SnmpDecodeError / TimeoutError) is computed from the ids actually seen on the wire; "
+             "rewrites include ids aliasing modulo 2^32 and Reports with a foreign engine id / user / msgID (only the request-id test is bypassed "
+             "for Reports). "
              "A mismatch is re-run twice with a long timeout before it counts.",
         note=TB + " Kernel-level reordering cannot be forced on loopback; reordering is produced by the agent's send order."),
     "C05": dict(
@@ -51,22 +53,25 @@ CHECKS = {
         tech="runtime monitoring: reference-model oracle (RFC 3416 agent over a sorted MIB vs list returned by the real iterators), exhaustive over all subsets of a 9-OID universe",
         text="A compliant reference agent serves every one of the 512 subsets of a 9-OID universe built around the bases (byte-prefix siblings, "
              "multi-octet arcs, entries before/after, base itself a leaf) for 8 bases, plus random MIBs up to 80 entries, across "
-             "max_repetitions x agent cap x v1/v2c/v3 x sync/async x getnext/getbulk/fetch; the returned list must equal the model's subtree.",
+             "max_repetitions x agent cap x v1/v2c/v3 x sync/async x getnext/getbulk/fetch; the returned list must equal the model's subtree. "
+             "Single-session histories are included: an earlier walk abandoned after one item, and a lost datagram followed by a retried next().",
         note=TB + " MIB values are never NULL."),
     "C06": dict(
         cat="exploration", ref="DESIGN.md section 4 C06",
         tech="runtime monitoring: online trace checker (executable walk specification) over requests seen by a hostile scripted agent and (oid,value) pairs yielded; exhaustive reply enumeration at depth 1 over a 35-varbind alphabet, bounded-depth beyond",
-        text="Agent strategies are arbitrary reply sequences over 7 OIDs x 5 value kinds: exhaustive for first replies of 0..2 (quick) / 0..3 "
+        text="Agent strategies are arbitrary reply sequences over 10 OIDs (incl. arcs whose BER encodings differ in length) x 5 value kinds: exhaustive for first replies of 0..2 (quick) / 0..3 "
              "(thorough) varbinds, depth 2 over continuing first replies, loop-forever agents, random to depth 8; getnext and getbulk, v1/v2c/v3, "
              "sync/async. The checker enforces containment, received order, strictly increasing yields, continuation from the last accepted OID, "
-             "no request or yield after a stop condition, and termination within len(script)+1 requests (a logical bound).",
+             "no request or yield after a stop condition, and termination within len(script)+1 requests (a logical bound); strategies with a lost "
+             "datagram and a caller that retries next() on the same iterator are included.",
         note=TB + " Depth >= 3 is sampled. Where the statement leaves a choice every consistent outcome is accepted."),
     "C07": dict(
         cat="exploration", ref="DESIGN.md section 4 C07",
         tech="runtime monitoring: oracle written from the statement over scripted replies, exhaustive over kind-vectors up to length 4",
         text="All 781 vectors of varbind kinds {value, NULL, noSuchObject, noSuchInstance, endOfMibView} of length 0..4 (random for 5..6), with "
              "requested/foreign/duplicate OIDs and values of every type, plus Report-in-place-of-response and silence, for get and get_many x "
-             "v1/v2c/v3 (noAuth/auth/DES/AES) x sync/async: return value or exception class must be the documented one.",
+             "v1/v2c/v3 (noAuth/auth/DES/AES) x sync/async: return value or exception class must be the documented one; bursts of consecutive unanswered requests on one session; a "
+             "timeout although a reply was sent is re-tried on fresh sessions and is a verdict at 3/3.",
         note=TB),
     "C08": dict(
         cat="exploration", ref="DESIGN.md section 4 C08",
@@ -74,7 +79,8 @@ CHECKS = {
         text="Strings over digits/dots/signs/blanks/letters (valid OIDs with arcs at every base-128 boundary up to 2^32-1 and 2..128 arcs; 17 "
              "malformed classes) go through SnmpOid::try_from and through get/get_many/getnext/getbulk/fetch; a must-accept string has to be "
              "sent as exactly its X.690 encoding and printed back identically; any other string is either refused before anything is sent or "
-             "sent as exactly what it denotes - a datagram carrying any other OID is the violation.",
+             "sent as exactly what it denotes - a datagram carrying any other OID is the violation; also after an abandoned walk of the same text "
+             "on the same session.",
         note=TB),
     "C09": dict(
         cat="exploration", ref="DESIGN.md section 4 C09",
@@ -91,7 +97,8 @@ CHECKS = {
              "octet} x auth flag x priv flag x {GetResponse, Report} x {encrypted, plaintext} is injected before the genuine reply; only a "
              "correctly MACed, auth-flagged (and, with privacy, encrypted) message may be the one delivered. On the pinned tree the incoming "
              "MAC and security level are not verified at all: recorded as known findings, one per forgery class; any other wrongly accepted "
-             "or wrongly dropped reply is still a VIOLATION.",
+             "or wrongly dropped reply is still a VIOLATION (the engine clock advances and restarts realistically; three consecutive requests "
+             "whose genuine replies are not delivered = genuine-dropped).",
         note=TB + " Reports are not judged (the statement allows them unauthenticated)."),
     "C11": dict(
         cat="exploration", ref="DESIGN.md section 4 C11",
@@ -129,7 +136,8 @@ CHECKS = {
         tech="runtime monitoring: differential round-trip oracle (independent minimal DER encoder + strict TLV walker) - exhaustive for every INTEGER of 1..3 content octets, boundary neighbourhoods, random; rel/dbg/ASan/Miri",
         text="Every INTEGER in -2^23..2^23-1 (16.7M values, exhaustive), +-N around every +-2^(8k-1)/+-2^(8k), i64::MIN/MAX and random values; "
              "OIDs; NULL; OCTET STRING fields of every length 0..4076; random v1/v2c/v3 Get/GetNext/GetBulk messages: encoding must equal the "
-             "independent minimal encoding, pass the strict walker, and decode back to the original with nothing left.",
+             "independent minimal encoding, pass the strict walker, and decode back to the original with nothing left; scoped PDUs encrypted by "
+             "the library (DES, AES) must decrypt, by the library, to the same PDU.",
         note=TB + " Independent encoder/walker live in rharness/src/common.rs."),
     "C16": dict(
         cat="exploration", ref="DESIGN.md section 4 C16",
@@ -137,7 +145,8 @@ CHECKS = {
         text="For each of 18 decoders x ranges over model-generated encodings that decode alone and s over empty/one octet/valid TLV/random/"
              "digit suffixes: value and leftover must be independent of s. Every corpus message with trailing bytes, and every short-form inner "
              "length raised past its parent while the bytes exist, must be rejected. End-to-end: a value followed by extra octets in its varbind "
-             "and by further varbinds is delivered unchanged or the reply is rejected.",
+             "and by further varbinds is delivered unchanged or the reply is rejected; lengths of constructed elements are also lowered, and "
+             "encrypted replies that declare more than they carry must never yield a value.",
         note=TB + " Values are rendered through the verif hook typed_from_ber/project."),
     "C17": dict(
         cat="exploration", ref="DESIGN.md section 4 C17",
@@ -145,7 +154,8 @@ CHECKS = {
         text="get_many OID lists are constructed so the reference-encoded request takes every length around every nesting-level boundary and "
              "the 4080-octet limit (thorough: every length 40..4400) for v1/v2c/v3 noAuth/auth/DES/AES, plus communities and user names up to "
              "4100 octets: too big -> SnmpEncodeError and nothing on the wire, fitting -> sent, strict-equal, exact size; the next request is "
-             "normal. ~10^6 random Buffer operations against a Vec shadow, also under ASan and Miri.",
+             "normal. ~10^6 random Buffer operations against a Vec shadow, also under ASan and Miri; valgrind memcheck on an end-to-end "
+             "workload checks that every octet reaching send(2) is defined.",
         note=TB + " With privacy a 48-octet band below the limit accepts either outcome."),
     "C18": dict(
         cat="fault_enumeration", ref="DESIGN.md section 4 C18",
@@ -153,7 +163,8 @@ CHECKS = {
         text="Schedules of k in {0,1,3,6(,2,12)} non-matching datagrams spaced 0.6 x timeout apart, optionally followed by the matching reply "
              "after the deadline (must not be delivered) or strays at 0.12 x timeout then the reply at 0.75 x timeout (must be delivered), for "
              "sync/async x v1/v2c/v3: the call must end within timeout + 0.25 s with the right outcome. A suspected violation counts only if "
-             "it repeats 3/3 with low measured scheduler drift and the agent's datagrams on schedule.",
+             "it repeats 3/3 with low measured scheduler drift and the agent's datagrams on schedule. Also: a history on one session (timeout "
+             "after a stray, then a late-but-in-time reply), a rate-limited session, and bursts ending in the last millisecond before the deadline.",
         note=TB + " Wall-clock property: the verdict is guarded, not exact; guards firing make a case inconclusive."),
     "C19": dict(
         cat="exploration", ref="DESIGN.md section 4 C19",
@@ -161,7 +172,8 @@ CHECKS = {
         text="The real RPSPolicer is driven with ~4x10^5 generated call times (gaps 0, 1 ns, d-1, d, d+1, 2d, 7.3d, 10^6 d, random; 8 rates) "
              "checking every delay in (0,d] and every window of releases; for d in {1,2,3,7,10,64} ns every (phase, gap) transition is "
              "executed and the local invariants that imply the window bound are asserted on _prev; rate-limited sync/async sessions under a "
-             "virtual clock must show the same bound on agent-observed arrivals for every request path; invalid rates raise ValueError.",
+             "virtual clock must show the same bound on agent-observed arrivals for every request path, also while the agent is silent and "
+             "every request times out; invalid rates raise ValueError.",
         note=TB + " The exhaustive part covers small intervals only; larger ones rely on translation invariance plus sampling."),
 }
 
